@@ -4,6 +4,7 @@ from . import dyn, dynalloc, dyncnf
 
 def run(ctx):
     dyn.rule_cache_barriers(ctx)
+    dyn.rule_cache_kinds(ctx)
     dyn.rule_log_and_replay(ctx)
     dynalloc.rule_allocators(ctx)
     dynalloc.rule_selector_retirement(ctx)
